@@ -534,16 +534,29 @@ def check_C04(tier, nproc=None):
         G += [[(22, D), b'e-30'], [(1, 'digit19'), b'.', (20, D), b'E+15'], [(16, D), b'e', b'37'], [(19, D), b'e-22'], [b'0.0', (19, D), b'e10'], [(23, D)]]
     for t in G:
         c.add(Job('vH_FP_glue', [('tmpl', 'd', t)], pkg=FP, weight=3000, opts=og))
+    # tier 5a (partial): the left-shift unit of the decimal fallback, with its cheat table
+    os_ = {'scanvalue': True, 'nsamples': 1}
+    ks = [1, 2, 3, 4, 5, 10, 20, 27, 40, 59, 60] if tier == 'quick' else list(range(1, 61))
+    nds = [1, 2, 3] if tier == 'quick' else [1, 2, 3, 4]
+    for k in ks:
+        for nd in nds:
+            c.add(Job('vH_FP_shift', [('int', nd), ('int', nd - 1), ('int', k), ('bool', True)], pkg=FP, weight=200 * nd, opts=os_))
+    if tier != 'quick':
+        for k in (4, 10, 27, 60):
+            for nd in (5, 6):
+                c.add(Job('vH_FP_shift', [('int', nd), ('int', 0), ('int', k), ('bool', True)], pkg=FP, weight=5000, opts=os_))
     c.bounds = {'scanner_all_strings': N, 'scanner_templates': [_tmplstr(t) for t in T],
+                'left_shift_unit': 'leftShift(a, k) for k in %s on every normalised decimal of %s digits: result = value*2^k exactly, normalised, not truncated' % (('1..60' if tier != 'quick' else ks), nds),
                 'glue_templates': [_tmplstr(t) for t in G],
                 'exact_path': 'atof64exact for every decimal exponent -26..41, both signs, every 64-bit mantissa',
                 'eisel_lemire': 'every one of the 696 table rows x every 64-bit mantissa with 0 leading zeros; leading-zero counts %s on %s rows; negative sign on the same rows' % (extra_clz, 'every 58th' if tier == 'quick' else 'all')}
-    c.must_reach = ['C04.scan-returned', 'C04.scan-ok', 'C04.el-returned', 'C04.el-ok', 'C04.exact-returned', 'C04.exact-ok', 'C04.glue-returned', 'C04.glue-ok', 'C04.api-number']
+    c.must_reach = ['C04.scan-returned', 'C04.scan-ok', 'C04.el-returned', 'C04.el-ok', 'C04.exact-returned', 'C04.exact-ok', 'C04.glue-returned', 'C04.glue-ok', 'C04.api-number', 'C04.shift-done']
     _std(c, ['R-ROUND (engine/gosym/fpspec.py): nearest binary64 with ties to even, as linear integer inequalities per exponent field; validated natively with math/big in replays',
              'math/bits.Mul64 and LeadingZeros64 are exact term-level intrinsics',
              'tier 4: eiselLemire64 replaced by its contract (free ok; when ok the result is rnd(man*10^exp), tier 3); atof64exact runs for real in the exact-rational model; f2 == fUp implies every value between the two bounds rounds to f2 (monotonicity of rounding, meta-argument)',
              'tier 2: each IEEE-754 operation on exactly known operands returns rnd(exact result) (the standard\'s definition); comparisons with constants are translated to the un-rounded value by rounding midpoints; an intermediate is taken as exact only when the solver proves it is an integer <= 2^53 on the path, otherwise the double rounding is decided with R-ROUND'])
-    c.outside = ['tier 4 uses the CONTRACT of the multi-precision fallback (returns the correctly rounded literal, overflow flag exact) as an assumption; literals with symbolic exponent digits are outside the glue templates',
+    c.outside = ['of the multi-precision fallback only the left-shift unit is established (operands up to %d digits); rightShift, floatBits loop composition, RoundedInteger and decimal.set are not (rightShift with 3 digits exhausted the worker memory limit: termination of its remainder loop is not decided by the integer encoding)' % nds[-1],
+                 'tier 4 uses the CONTRACT of the multi-precision fallback (returns the correctly rounded literal, overflow flag exact) as an assumption; literals with symbolic exponent digits are outside the glue templates',
                  'the multi-precision decimal fallback (decimal.set, floatBits, shifts): literals with more than 19 significant digits whose bounds disagree, exact halfway cases, exponents beyond +-347, subnormal and overflowing magnitudes are NOT established end to end',
                  'literals longer than the scanner bounds']
     c.run_jobs(nproc)
